@@ -45,6 +45,7 @@ def table_R(repo):
     pending = None
     derive = ""
     strnames = {}
+    handwritten = set()
     def full(name):
         return norm(".".join([m for m, _ in mods] + [name]))
     def resolve(ty):
@@ -73,6 +74,9 @@ def table_R(repo):
         m = re.match(r'pub struct (\w+) \{', st)
         if m:
             cur = ("struct", full(m.group(1)), depth); msgs[cur[1]] = []
+            if "Message" not in derive:
+                handwritten.add(cur[1])      # no derive(::prost::Message): the codec of this message is hand-written
+            derive = ""
         m2 = re.match(r'pub struct (\w+) \{\}', st)
         if m2:
             msgs[full(m2.group(1))] = []; cur = None
@@ -181,7 +185,7 @@ def table_R(repo):
     en_out = {}
     for en, vals in enums.items():
         en_out[en] = sorted([[strnames.get(en, {}).get(v[0], v[0]), v[1]] for v in vals], key=lambda x: x[1])
-    return {"messages": out, "enums": en_out}
+    return {"messages": out, "enums": en_out, "handwritten": sorted(handwritten)}
 
 # ---------------------------------------------------------------- Y
 def rd_varint(b, i):
@@ -298,6 +302,9 @@ def events(repo):
         evs.append({"ev": "schema_msg", "case": f"schema-msg-{n}", "src": "static",
                     "in": {"name": n, "P": [P["messages"][n]] if n in P["messages"] else [],
                            "R": [R["messages"][n]] if n in R["messages"] else [],
+                           # a message whose codec is hand-written has no attribute table: its conformance is decided by
+                           # the behavioural families alone (wire_decode / wire_encode against the independent encoder)
+                           "Rhand": n in R.get("handwritten", []),
                            "Y": [Y["messages"][n]] if n in Y["messages"] else []}, "out": {"tag": "ok"}})
     for n in sorted(set(P["enums"]) | set(R["enums"]) | set(Y["enums"])):
         evs.append({"ev": "schema_enum", "case": f"schema-enum-{n}", "src": "static",
